@@ -38,7 +38,7 @@ REAL = ['py4hw.transpilation.python2verilog_transpilation', 'py4hw.rtl_generatio
 STUB = ['Verilog side: dsim/vsim executes the emitted text', 'random inputs (protocol-agnostic) as the environment']
 ASSUMPTIONS = ['vsim reading of IEEE 1364-2005', 'generated programs keep every intermediate value in [0, 2**31) and give every arithmetic '
                'sub-expression a 32-bit context (literal, integer variable or constructor constant)']
-PROBES = ['lib_block', 'random_seq', 'random_comb', 'unsupported_refused', 'unsupported_accepted_equivalent', 'state_compared', 'match_case', 'elif_chain']
+PROBES = ['second_instance_other_constants', 'wide_ports', 'lib_block', 'random_seq', 'random_comb', 'unsupported_refused', 'unsupported_accepted_equivalent', 'state_compared', 'match_case', 'elif_chain']
 
 _TMP = None
 
@@ -114,6 +114,9 @@ def gen(rs, tier, index):
         pg.ternaries = not kf.excluded('transpile-ternary-operand')
         prog = pg.generate()
         scn = {'kind': 'prog', 'prog': prog, 'cargs': [v for n, v in prog['consts']]}
+        if prog['consts']:
+            # a second instance of the same class with other constructor constants, generated later in the same process
+            scn['cargs2'] = [rng.choice([v + 1, v + 17, max(0, v - 1), min(7, v + 20), 0]) for n, v in prog['consts']]
         ins = prog['ins']
     else:
         kinds = [k for k in sorted(progs.UNSUPPORTED) if not kf.excluded('transpile-' + k)]
@@ -242,11 +245,18 @@ def run(scn, log, st):
         st.state(scn['prog']['src'])
         if kind == 'prog':
             st.probe('random_seq' if scn['prog']['seq'] else 'random_comb')
+            if any(w > 32 for n, w in scn['prog']['ins']):
+                st.probe('wide_ports')
             if 'match ' in scn['prog']['src']:
                 st.probe('match_case')
             if 'elif ' in scn['prog']['src']:
                 st.probe('elif_chain')
     m = cosim(scn, log, st)
+    if m is None and scn.get('cargs2') is not None and scn['cargs2'] != scn['cargs']:
+        st.probe('second_instance_other_constants')
+        m = cosim(dict(scn, cargs=scn['cargs2']), log, st)
+        if m is not None and m[0] == 'mismatch':
+            m = (m[0], m[1], m[2], 'second instance of the class (constructor constants %s after %s): %s' % (scn['cargs2'], scn['cargs'], m[3]))
     what = scn.get('lib') or scn['prog'].get('unsupported') or ('seq' if scn['prog']['seq'] else 'comb')
     if kind == 'unsupported':
         if m is None:
